@@ -149,6 +149,8 @@ class Spec:
     def run_case(self, case):
         if "direct" in case:
             return self.direct(case)
+        if "C07" in self.props and "exact_scenario" not in case:
+            case = dict(case, opts=dict(case.get("opts") or {}, lockorder=True))  # lock-order sanitizer on (its verdicts belong to C07)
         acc = W.Acc(case)
         if "exact_scenario" in case:
             sc = copy.deepcopy(case["exact_scenario"])
